@@ -495,8 +495,11 @@ class TextXVisitor(RRELVisitor):
             abstract = False
             if rule.rule_name and cls.__name__ != rule.rule_name:
                 # Special case. Body of the rule is a single rule reference and
-                # the referenced rule is not match rule.
-                target_cls = metamodel[rule.rule_name]
+                # the referenced rule is not match rule. The class the
+                # reference was resolved to is used: looking the name up again
+                # would search from the grammar file being compiled, not from
+                # the (imported) file this rule belongs to.
+                target_cls = rule._tx_class
                 _determine_rule_type(target_cls)
                 abstract = target_cls._tx_type != RULE_MATCH
             else:
